@@ -10,7 +10,7 @@ int main() {
   const uint8_t data[] = {@BYTES@ 0};
   const uint64_t len = @LEN@; const uint64_t seed = @SEED@ULL;
   if (sizeof(data) - 1 < len) { std::cout << "replay input incomplete\n"; return 0; }
-  uint64_t r = datasketches::XXHash64::hash(data, len, seed), s = spec_xxh64(data, len, seed);
+  uint64_t r = XXHash64::hash(data, len, seed), s = spec_xxh64(data, len, seed);
   if (r != s) { std::cout << "hash differs from the published definition for len=" << len << "\n"; return 1; }
   std::cout << "equal on this input\n"; return 0;
 }
